@@ -134,7 +134,7 @@ Exec ==
                            ELSE blk' = rest /\ env' = Put(env, c.name, ToDec(EvalA(c.expr, fv, env)))
                                 /\ UNCHANGED <<pc, calls, out, status, code>>
        [] c.op = "if" -> IF ~CondKnown(c, fv, env) THEN status' = "unsupported" /\ UNCHANGED <<pc, blk, calls, env, out, code>>
-                         ELSE LET body == IF CondVal(c, fv, env) THEN c.then ELSE c.else IN
+                         ELSE LET body == IF CondVal(c, fv, env) # c.neg THEN c.then ELSE c.else IN      \* if not <condition>
                               /\ blk' = IF body = <<>> THEN rest ELSE Append(rest, [cmds |-> body, i |-> 1, fv |-> fv])
                               /\ UNCHANGED <<pc, calls, env, out, status, code>>
        [] c.op = "forf" -> LET s == Exp(c.src, fv, env) IN
